@@ -40,7 +40,8 @@ func AddTrailers(
 ) {
 	for _, header := range src {
 		for _, val := range header.Value {
-			dest.Add(http.TrailerPrefix+header.Name, val)
+			// (Add does not canonicalize the name behind the prefix.)
+			dest.Add(http.TrailerPrefix+http.CanonicalHeaderKey(header.Name), val)
 		}
 	}
 }
